@@ -308,6 +308,114 @@ def span_bounds(n: int, bounds: int) -> int:
     return lower + bounds
 
 
+# ---- std-library constructs lowered by persistent call-compiler objects (C11-r3a)
+from guppylang.std.either import Either, left, right  # noqa: E402
+from guppylang.std.err import Result, ok, err  # noqa: E402
+from guppylang.std.option import Option, nothing, some  # noqa: E402
+from guppylang.std.mem import mem_swap  # noqa: E402
+from guppylang.std.angles import angle, pi  # noqa: E402
+from guppylang.std.builtins import result, panic, barrier  # noqa: E402
+from guppylang.std.quantum import rz, discard  # noqa: E402
+from guppylang.std.quantum import cz, reset, t, toffoli  # noqa: E402
+
+
+@guppy
+def std_right_a() -> int:
+    x: Either[float, int] = right(10)
+    return x.unwrap_right()
+
+
+@guppy
+def std_right_b() -> int:
+    y: Either[float, int] = right(32)
+    return y.unwrap_right() + 1
+
+
+@guppy
+def std_left_right(b: bool) -> float:
+    z: Either[float, int] = left(1.5)
+    w: Either[float, int] = right(3)
+    if b and w.is_right():
+        return 1.0
+    if z.is_left():
+        return z.unwrap_left()
+    return 0.0
+
+
+@guppy
+def std_err_a() -> bool:
+    r: Result[int, bool] = err(True)
+    return r.unwrap_err()
+
+
+@guppy
+def std_ok_err(b: bool) -> int:
+    r: Result[int, float] = ok(4)
+    e: Result[int, float] = err(2.5)
+    if b and e.is_err():
+        return 7
+    if r.is_ok():
+        return r.unwrap()
+    return 0
+
+
+@guppy
+def std_option(b: bool) -> int:
+    o: Option[int] = nothing()
+    if b:
+        o = some(5)
+    if o.is_some():
+        return o.unwrap()
+    return 1
+
+
+@guppy
+def std_array(n: int) -> int:
+    xs = array(n, n + 1, n + 2)
+    xs[1] = xs[0] + xs[2]
+    ys = array(i * 2 for i in range(4))
+    return xs[1] + ys[3] + len(ys)
+
+
+@guppy
+def std_list(n: int) -> int:
+    ls = [n, 2 * n]
+    ls.append(3)
+    return len(ls) + ls.pop()
+
+
+@guppy
+def std_angle(q: qubit) -> None:
+    a = angle(0.25) + pi / 2
+    rz(q, a)
+
+
+@guppy
+def std_result_panic(x: int) -> None:
+    result("value", x)
+    result("flag", x > 2)
+    if x > 100:
+        panic("too big", x)
+
+
+@guppy
+def std_barrier_swap(q: qubit, r: qubit) -> None:
+    barrier(q, r)
+    mem_swap(q, r)
+    h(q)
+
+
+@guppy
+def std_qsystem(q: qubit, r: qubit) -> bool:
+    # (guppylang.std.qsystem cannot be imported under the sandbox shim: plain quantum ops)
+    cz(q, r)
+    t(q)
+    reset(r)
+    a = qubit()
+    toffoli(q, r, a)
+    return measure(a)
+
+
 POOL = {
     "plain": plain, "branchy": branchy, "noret": noret, "bad_type": bad_type,
     "bad_linear": bad_linear, "bad_name": bad_name, "ident": ident, "pair": pair,
@@ -323,7 +431,13 @@ POOL = {
     "shadow_rec_same": shadow_rec_same, "shadow_nonrec": shadow_nonrec,
     "shadow_capt": shadow_capt, "shadow_capt_nonrec": shadow_capt_nonrec,
     "sum_total": sum_total, "span_bounds": span_bounds,
+    "std_right_a": std_right_a, "std_right_b": std_right_b, "std_left_right": std_left_right,
+    "std_err_a": std_err_a, "std_ok_err": std_ok_err, "std_option": std_option,
+    "std_array": std_array, "std_list": std_list, "std_angle": std_angle,
+    "std_result_panic": std_result_panic, "std_barrier_swap": std_barrier_swap,
+    "std_qsystem": std_qsystem,
 }
+STD = [n for n in POOL if n.startswith("std_")]
 
 # Hand-written abstraction of the pool for the Engine model (validated against the observed
 # ENGINE.checked sets on every run): direct dependencies among pool definitions, whether the
@@ -350,3 +464,4 @@ META = {
     "shadow_nonrec": _m(), "shadow_capt": _m(),
     "shadow_capt_nonrec": _m(), "sum_total": _m(), "span_bounds": _m(),
 }
+META.update({n: _m() for n in STD})
